@@ -221,6 +221,31 @@ class ShimQueue:
     def get(self, block=True, timeout=None):
         if not block:
             return self.get_nowait()
+        if timeout is not None and self.shared:
+            # a bounded wait: the thread stays runnable; if it is scheduled while the queue is empty its timeout has expired
+            # (how long a timeout is in real time is not modelled: every point at which it may fire is explored)
+            # fairness: after its timeout fired the thread is scheduled again only once another thread has taken a step (real time
+            # passes for everybody) - or twice more if nobody else moves, after which a poll loop over an empty queue counts as stuck
+            name = self.s.me()
+            marks = self.__dict__.setdefault('_tmo', {})
+            mark, idle = marks.get(name, (None, 0))
+
+            def en():
+                if self.items or mark is None:
+                    return True
+                if any(c != name for c in self.s.choices[mark:]):
+                    return True
+                return idle < 2
+            self.s.yield_point('get_timeout', en)
+            if not self.items:
+                moved = mark is not None and any(c != name for c in self.s.choices[mark:])
+                marks[name] = (len(self.s.choices), 0 if (moved or mark is None) else idle + 1)
+                self.s.emit('get_timeout')
+                raise ShimEmpty()
+            marks.pop(name, None)
+            item = self.items.popleft()
+            self.s.emit('get', item)
+            return item
         if self.shared:
             self.s.yield_point('get', lambda: len(self.items) > 0)
         item = self.items.popleft()
